@@ -52,7 +52,7 @@
 //! **Second genuine defect** (found by the thorough tier; regression cases
 //! `/verif/regressions/C20/c20/nlj-fallback-multi-partition-left-emission.json` and — with a plain 16 KiB
 //! GreedyMemoryPool and MemTables — `/verif/regressions/C18/c18/nlj-fallback-multi-partition-left-emission.json`;
-//! repair `/verif/fixes/C18-nlj-fallback-multi-partition-left-emission.diff`): in the same fallback path every
+//! repair `/verif/fixes/C05-nlj-spill-fallback-multi-partition.diff`, the same guard as found through C05): in the same fallback path every
 //! right partition builds its own left bitmap, so for join types that emit left rows at the end (LEFT, LEFT
 //! SEMI, LEFT ANTI, LEFT MARK) each partition emits "unmatched" left rows judged by its own matches only →
 //! spurious NULL-extended rows (`t RIGHT JOIN u` planned as NLJ Left: expected 101 rows, got 282). The code
@@ -64,13 +64,14 @@
 //! `/verif/regressions/C18/c18/nlj-fallback-right-unmatched-lost.json`): same fallback path, single partition
 //! everywhere: `t LEFT JOIN u` planned as NLJ `join_type=Right` under a 128 KiB pool returns only the matched
 //! rows (1317 of 2681; every unmatched right row is missing) when `batch_size` is 32 or 64; with batch_size ≥
-//! 1024 the fallback answers correctly. Root cause not isolated (the global right bitmap / output-buffer
-//! handling of `EmitGlobalRightUnmatched`); `/verif/fixes/C18-nlj-fallback-right-unmatched-lost.stopgap.diff`
-//! is only a stop-gap that disables the fallback for join types needing right-side final emission.
+//! 1024 the fallback answers correctly. The vf-join engineer found the same defect through C05 and isolated the
+//! root cause (`handle_buffering_left_memory_limited` goes straight to `Done` when the batch that hit the limit
+//! was the last left batch, skipping `EmitGlobalRightUnmatched`): `/verif/fixes/C05-nlj-spill-fallback-right-emission.diff`
+//! (not re-verified from here).
 //!
 //! Until the repairs are committed the class NestedLoop × MemRefuse{disk} is excluded through
-//! `known_signature` (counter `known_excluded`); the three findings are registered under the one class
-//! signature `nlj-oom-fallback` in /verif/known_findings.json.
+//! `known_signature` (counter `known_excluded`): multi-partition cases under `nlj-oom-fallback:left-child-reexecuted`,
+//! single-partition ones under `nlj-oom-fallback:right-emission-skipped` (duplicate of C05's finding).
 //!
 //! **Sensitivity probes** (patches in `crates/vf-res/probes/`, run with `tools/mutrun <patch> -- ./check C20
 //! quick`; all on VERIF_SEED=0):
@@ -471,6 +472,12 @@ impl Property for C20 {
             None
         };
 
+        if let Some(full) = &full {
+            if sub_multiset(full, &expected).is_some() {
+                labels.push("limit-defect-independent-of-faults".into());
+                return done(CaseResult::discard("fault-free un-ordered LIMIT answer is outside the un-LIMITed result (not C20's subject)"), &mut labels);
+            }
+        }
         // ---- enumerate the fault points
         let points: Vec<Point> = match case.fault {
             FaultKind::Source => {
@@ -586,7 +593,8 @@ impl Property for C20 {
         // (C) unmatched right rows are lost in the fallback path when batch_size is small — any partitioning.
         let nlj = case.query.shape.join_algo() == Some(JoinAlgo::NestedLoop);
         if nlj && matches!(case.fault, FaultKind::MemRefuse { disk: true, .. }) {
-            return Some(NLJ_FALLBACK_SIGNATURE.to_string());
+            let multi = case.cfg.target_partitions >= 2 || case.cfg.parts_t >= 2 || case.cfg.parts_u >= 2;
+            return Some(if multi { SIG_LEFT_CHILD } else { SIG_RIGHT_EMISSION }.to_string());
         }
         None
     }
@@ -595,6 +603,8 @@ impl Property for C20 {
     }
 }
 
-pub const NLJ_FALLBACK_SIGNATURE: &str = "nlj-oom-fallback";
+pub const SIG_LEFT_CHILD: &str = "nlj-oom-fallback:left-child-reexecuted";
+pub const SIG_LEFT_EMISSION: &str = "nlj-oom-fallback:left-emission-multi-partition";
+pub const SIG_RIGHT_EMISSION: &str = "nlj-oom-fallback:right-emission-skipped";
 static FAULT_POINTS: std::sync::atomic::AtomicU64 = std::sync::atomic::AtomicU64::new(0);
 static REACHED_POINTS: std::sync::atomic::AtomicU64 = std::sync::atomic::AtomicU64::new(0);
